@@ -16,6 +16,10 @@ def jobs(tier, s0):
                     out.append((_scn(n, proto, cycles=3, seed=sd, runner='c12', obj=obj), {'d': 0}))
         out.append((_scn(n, 'cont3z', cycles=2, seed=s0, runner='c12'),
                     {'d': 1, 'range': 'init' if tier == 'quick' else 'all'}))
+        if tier == 'quick':
+            # scalar draws of the first cycle (branch deciders): the rarely taken side of every `if random() < p`
+            out.append((_scn(n, 'cont3z', cycles=2, seed=s0 + 1, runner='c12'),
+                        {'d': 1, 'range': 'first', 'kinds': ('scalar',)}))
         # longer runs (states that take several generations to appear, e.g. recovered / aged / exhausted agents)
         for sd in range(s0, s0 + (4 if tier == 'quick' else 8)):
             out.append((_scn(n, 'cont3z', cycles=12, seed=sd, runner='c12'), {'d': 0}))
